@@ -1007,6 +1007,7 @@ pub(crate) mod verif_exports {
         verify_mmr_proof, verify_tau, verify_total_difficulty, EpochDifficultyTrend,
         EstimatedLimit,
     };
+    pub(crate) use super::components::required_lemmas_count;
     pub(crate) use super::constant;
     pub(crate) use super::peers::*;
     pub(crate) use super::sampling::{
